@@ -20,10 +20,6 @@ def _init():
     c12.ctx()
 
 
-def _run(idx_tier_seed):
-    pass
-
-
 def check(tier, vseed, args):
     runs = args.runs or RUNS[tier]
     first = args.first or 0
@@ -217,12 +213,6 @@ def _report(spec, ops, div, vseed, idx, tier, minimise=True):
                        f"nops={len(rp['ops'])} replay_confirmed={ok}"}
 
 
-def replay(rp):
-    divs = c12.failing(rp["spec"], rp["ops"])
-    cleanup()
-    return bool(divs), {"divergences": divs[:3]}
-
-
 # ----------------------------------------------------------------------------
 
 
@@ -292,10 +282,7 @@ def roundtrip(tier, vseed, violations, harness):
             "distinct_tables": len(shas), "tables_with_conflicts": with_conf}
 
 
-_orig_replay = replay
-
-
-def replay(rp):  # noqa: F811
+def replay(rp):
     if rp.get("kind") == "roundtrip":
         d = os.path.join(core.SHM, f"pgsim-c12rt-replay-{os.getpid()}")
         os.makedirs(d, exist_ok=True)
@@ -305,4 +292,10 @@ def replay(rp):  # noqa: F811
         finally:
             shutil.rmtree(d, ignore_errors=True)
         return bool(r.get("bad")), r
-    return _orig_replay(rp)
+    ops = json.loads(json.dumps(rp["ops"]))
+    _, divs, _ = c12.run_history(rp["spec"], ops)
+    cleanup()
+    bad = [d for d in divs if not d["attributed"]]
+    return bool(bad), {"unattributed_divergences": bad[:3],
+                       "attributed_to_known_findings": [[d["i"], d["attributed"]] for d in divs
+                                                        if d["attributed"]]}
